@@ -200,7 +200,7 @@ def main(argv):
     # implementation that spins for ever would otherwise cost a livelock time-out per case)
     first = [l for l in lines if int(l.split()[0].rsplit(".", 1)[1]) < 3]
     rest = [l for l in lines if int(l.split()[0].rsplit(".", 1)[1]) >= 3]
-    impl_out = chk.run_cases(impl, first, timeout=900) if impl else {}
+    impl_out = chk.run_cases(impl, first, timeout=300) if impl else {}
     bad1 = [l for l in impl_out.values() if l.startswith("DSCHED-STUCK") or l.startswith("CRASH") or "=0" in l.split(" | ")[-1].split(" ! ")[0]]
     if impl and rest and not bad1:
         impl_out.update(chk.run_cases(impl, rest, timeout=900))
